@@ -65,6 +65,78 @@ def is_type_valued(repo: Repo, fi: FuncInfo, e: ast.AST, depth: int = 0) -> bool
     return False
 
 
+def check_encoder_pure(ctx: Ctx, oid: str) -> None:
+    """the bytes written for a value depend on its exact type and content only -- not on what was saved before (shared: C01.i, C12.f)"""
+    repo = ctx.repo
+    ser = repo.cls("_Serializer")
+    with ctx.obligation(oid, "encoder-pure") as ob:
+        # the encoding of a value may depend on its exact type and content only: a container of the serializer that is
+        # keyed by a *value* being saved conflates equal values of different type (1 == 1.0 == True, 0.0 == -0.0)
+        n = 0
+        for m in ser.methods.values():
+            vparams = {p for p in m.params() if p != "self"}
+            for x in repo.own_nodes(m):
+                if isinstance(x, ast.Subscript) and isinstance(x.value, ast.Attribute) and unparse(x.value.value) in ("self", "cls", ser.name, "self.__class__"):
+                    n += 1
+                    key_names = {y.id for y in ast.walk(x.slice) if isinstance(y, ast.Name)}
+                    by_type = is_type_valued(repo, m, x.slice)
+                    ob.site(m, x, f"serializer table access {norm(x)[:50]}", keyed_by_type=by_type)
+                    if key_names & vparams and not by_type:
+                        ob.violation(m, x, f"the serializer consults a table keyed by the value being saved (`{norm(x)}`): equal values of different type or bit pattern "
+                                           "(1, 1.0, True; 0.0, -0.0) would share one encoding -- the round trip is no longer type-exact")
+                if isinstance(x, ast.Call) and callee_attr(x) in ("get", "setdefault", "pop") and isinstance(x.func, ast.Attribute) and isinstance(x.func.value, ast.Attribute) \
+                        and unparse(x.func.value.value) in ("self", "cls", ser.name, "self.__class__"):
+                    n += 1
+                if isinstance(x, ast.Call) and callee_attr(x) in ("get", "setdefault", "pop") and isinstance(x.func, ast.Attribute) and isinstance(x.func.value, ast.Attribute) and unparse(x.func.value.value) in ("self", "cls") \
+                        and x.args and {y.id for y in ast.walk(x.args[0]) if isinstance(y, ast.Name)} & vparams and not is_type_valued(repo, m, x.args[0]):
+                    ob.violation(m, x, f"the serializer consults a table keyed by the value being saved (`{norm(x)[:60]}`)")
+            for x in repo.own_nodes(m):
+                if isinstance(x, ast.Assign) and m.name != "__init__" and any(unparse(t) == "self._write" for t in x.targets):
+                    ob.violation(m, x, "the serializer's sink is re-bound while saving: bytes can be re-ordered or replayed")
+        ob.require(n >= 1, f"{n} serializer table accesses (floor 1: the type-keyed dispatch table)")
+
+
+
+def check_decoder_fresh(ctx: Ctx, oid: str) -> None:
+    """every loaded container is a new object: the loader takes no value from a table of prebuilt mutable objects (C01.m)"""
+    repo = ctx.repo
+    uns = repo.cls("Unserializer")
+    MUT_CTORS = {"set", "list", "dict", "bytearray", "deque", "defaultdict", "OrderedDict"}
+
+    def mutable(v: ast.AST) -> bool:
+        return isinstance(v, (ast.List, ast.Dict, ast.Set, ast.ListComp, ast.DictComp, ast.SetComp)) or \
+            (isinstance(v, ast.Call) and unparse(v.func).split(".")[-1] in MUT_CTORS)
+    with ctx.obligation(oid, "decoder-fresh") as ob:
+        tables = {}
+        for st in uns.node.body:
+            tg = st.targets[0] if isinstance(st, ast.Assign) and len(st.targets) == 1 else (st.target if isinstance(st, ast.AnnAssign) else None)
+            val = getattr(st, "value", None)
+            if isinstance(tg, ast.Name) and isinstance(val, ast.Dict):
+                tables[tg.id] = [v for v in val.values if v is not None and mutable(v)]
+            elif isinstance(tg, ast.Name) and val is not None and mutable(val):
+                tables[tg.id] = [val]
+        n = 0
+        for m in uns.methods.values():
+            fm = repo.func(m.qualname)
+            for x in repo.own_nodes(fm):
+                base = None
+                if isinstance(x, ast.Subscript) and isinstance(x.ctx, ast.Load) and isinstance(x.value, ast.Attribute):
+                    base = x.value
+                elif isinstance(x, ast.Call) and callee_attr(x) in ("get", "setdefault") and isinstance(x.func.value, ast.Attribute):
+                    base = x.func.value
+                elif isinstance(x, ast.Attribute) and isinstance(x.ctx, ast.Load):
+                    base = x
+                if base is None or unparse(base.value) not in ("self", "cls", uns.name, "self.__class__", "type(self)") or base.attr not in tables:
+                    continue
+                n += 1
+                bad = tables[base.attr]
+                ob.site(fm, x, f"loader reads the class-level table {base.attr}", mutable_values=len(bad))
+                if bad:
+                    ob.violation(fm, x, f"the loader takes values from the class-level table `{base.attr}`, which holds a prebuilt mutable object (`{norm(bad[0])[:30]}`): every load "
+                                        "returns the same object, and a receiver that mutates it changes what later loads return", construct=f"shared mutable {base.attr}")
+        ob.note(f"class-level tables of the loader holding mutable values: {sorted(k for k, v in tables.items() if v)}; reads of class-level tables: {n}")
+
+
 def check(ctx: Ctx) -> None:
     repo = ctx.repo
     gb = repo.module(GB)
@@ -292,31 +364,8 @@ def check(ctx: Ctx) -> None:
         if stars[0][1] != "items(v)":
             ob.violation(m, m.node, f"save_dict iterates over {stars[0][1]} instead of the dict's own items(): insertion order is lost", construct=f"iter {stars[0][1]}")
 
-    with ctx.obligation("C01.i", "encoder-pure") as ob:
-        # the encoding of a value may depend on its exact type and content only: a container of the serializer that is
-        # keyed by a *value* being saved conflates equal values of different type (1 == 1.0 == True, 0.0 == -0.0)
-        n = 0
-        for m in ser.methods.values():
-            vparams = {p for p in m.params() if p != "self"}
-            for x in repo.own_nodes(m):
-                if isinstance(x, ast.Subscript) and isinstance(x.value, ast.Attribute) and unparse(x.value.value) in ("self", "cls", ser.name, "self.__class__"):
-                    n += 1
-                    key_names = {y.id for y in ast.walk(x.slice) if isinstance(y, ast.Name)}
-                    by_type = is_type_valued(repo, m, x.slice)
-                    ob.site(m, x, f"serializer table access {norm(x)[:50]}", keyed_by_type=by_type)
-                    if key_names & vparams and not by_type:
-                        ob.violation(m, x, f"the serializer consults a table keyed by the value being saved (`{norm(x)}`): equal values of different type or bit pattern "
-                                           "(1, 1.0, True; 0.0, -0.0) would share one encoding -- the round trip is no longer type-exact")
-                if isinstance(x, ast.Call) and callee_attr(x) in ("get", "setdefault", "pop") and isinstance(x.func, ast.Attribute) and isinstance(x.func.value, ast.Attribute) \
-                        and unparse(x.func.value.value) in ("self", "cls", ser.name, "self.__class__"):
-                    n += 1
-                if isinstance(x, ast.Call) and callee_attr(x) in ("get", "setdefault", "pop") and isinstance(x.func, ast.Attribute) and isinstance(x.func.value, ast.Attribute) and unparse(x.func.value.value) in ("self", "cls") \
-                        and x.args and {y.id for y in ast.walk(x.args[0]) if isinstance(y, ast.Name)} & vparams and not is_type_valued(repo, m, x.args[0]):
-                    ob.violation(m, x, f"the serializer consults a table keyed by the value being saved (`{norm(x)[:60]}`)")
-            for x in repo.own_nodes(m):
-                if isinstance(x, ast.Assign) and m.name != "__init__" and any(unparse(t) == "self._write" for t in x.targets):
-                    ob.violation(m, x, "the serializer's sink is re-bound while saving: bytes can be re-ordered or replayed")
-        ob.require(n >= 1, f"{n} serializer table accesses (floor 1: the type-keyed dispatch table)")
+    check_encoder_pure(ctx, "C01.i")
+    check_decoder_fresh(ctx, "C01.m")
 
     # ---- C01.j every int the 4-byte branch accepts is written (the helper's own range guard must not reject any of them)
     with ctx.obligation("C01.j", "accepted-int-total") as ob:
